@@ -34,15 +34,17 @@ def J(x):
 # ---------------------------------------------------------------- universe
 def universe(thorough: bool):
     if thorough:
-        keys = ["a", "b", "a.b", "", "é", "_adds"]
-        scal = [0, 1, True, None, "x", 1.0, [], [1], {}, [1.0], [True], 0.0, -0.0, [{"a": 1}], [{"a": True}], "x\u2028y"]
-        inner_keys = ["a", "b", "a.b", ""]
+        keys = ["a", "b", "a.b", "", "é", "_adds", "a\\b", "\\"]
+        scal = [0, 1, True, None, "x", 1.0, [], [1], {}, [1.0], [True], 0.0, -0.0, [{"a": 1}], [{"a": True}], "x\u2028y", [1, 2], [2, 1]]
+        inner_keys = ["a", "b", "a.b", "", "b\\"]
         inner_vals = [0, 1, True, {}]
+        vals2_extra = [[1], 1.0, {"a.b": 1}]
     else:
-        keys = ["a", "a.b", "", "é"]
-        scal = [0, 1, True, None, "x", 1.0, [1], {}, [1.0], [True], -0.0, 0.0, [{"a": 1}], [{"a": True}]]
-        inner_keys = ["b", "a.b", ""]
+        keys = ["a", "a.b", "", "é", "a\\"]
+        scal = [0, 1, True, None, "x", 1.0, [1], {}, [1.0], [True], -0.0, 0.0, [{"a": 1}], [{"a": True}], [1, 2], [2, 1]]
+        inner_keys = ["b", "a.b", "", "\\b"]
         inner_vals = [1]
+        vals2_extra = []
     vals = list(scal)
     for ik in inner_keys:
         for iv in inner_vals:
@@ -50,13 +52,15 @@ def universe(thorough: bool):
     # a two-level nest so that dict<->scalar replacement and nested walks with 2 inner keys occur
     vals.append({"a": 1, "b": {"c": 2}})
     vals.append({"a": 1, "b": {"c": 3}})
+    # two-key objects use a reduced value alphabet (the pair space is quadratic in the universe)
+    vals2 = [0, True, "x", {}, {"b": 1}, {"a": 1, "b": {"c": 2}}] + vals2_extra
     objs = [{}]
     for k in keys:
         for v in vals:
             objs.append({k: v})
     for k1, k2 in itertools.combinations(keys, 2):
-        for v1 in vals:
-            for v2 in vals:
+        for v1 in vals2:
+            for v2 in vals2:
                 objs.append({k1: v1, k2: v2})
     return objs
 
@@ -174,7 +178,9 @@ def file_universe(thorough: bool):
     return out
 
 
-BASELINES = ["present", "missing", "garbage", "empty", "truncated", "other-etag-only"]
+# "present:live-object": the SAME dict object is written as the full snapshot, mutated in place into `cur` and written again
+# in delta mode (how an engine holding one live state would call the writer)
+BASELINES = ["present", "present:live-object", "missing", "garbage", "empty", "truncated", "other-etag-only"]
 READERS = ["read_snapshot(root,etag)", "read_snapshot(path)", "load_latest_snapshot"]
 
 
@@ -194,11 +200,19 @@ def check_file(case, scratch):
     out = []
     try:
         try:
-            pbase, _ = snap.write_snapshot_auto(d, etag_from=None, etag_to="E1", payload=base, delta_mode=False)
+            live = copy.deepcopy(base)
+            pbase, _ = snap.write_snapshot_auto(d, etag_from=None, etag_to="E1", payload=live, delta_mode=False)
             os.utime(pbase, (1000, 1000))
             if os.path.exists(pbase + ".meta"):
                 os.utime(pbase + ".meta", (1000, 1000))
-            pcur, wrote_delta = snap.write_snapshot_auto(d, etag_from="E1", etag_to="E2", payload=cur, delta_mode=True)
+            if bl == "present:live-object":
+                live.clear()
+                live.update(copy.deepcopy(cur))
+                second = live
+                bl = "present"
+            else:
+                second = cur
+            pcur, wrote_delta = snap.write_snapshot_auto(d, etag_from="E1", etag_to="E2", payload=second, delta_mode=True)
             os.utime(pcur, (2000, 2000))
         except Exception as e:  # the writer must cope with every JSON payload (baseline is present and intact here)
             return [("file:writer-raises:%s" % type(e).__name__, "write_snapshot_auto raised %r with an intact baseline" % (e,))]
